@@ -296,6 +296,14 @@ def scan_order_worker(seed):
     if outs[0] != outs[2] or outs[1] != outs[3]:
         problems.append({"what": "two scans of the same tree differ (directory enumeration order / exclusion pattern order)", "files": dict(tree),
                          "patterns": pats, "outs": outs})
+    # proper regular expressions as exclusions, with capture groups and a back-reference: every listing order must exclude the same files
+    rx = [r".*/(\w+)/\1\.py$", r".*/(gen|tests)(_\w+)?$", r".*/" + re.escape(rng.choice(names)) + r"$"]
+    routs = []
+    with sc.write_project(tree) as proj:
+        for perm in (rx, rx[::-1], rx[1:] + rx[:1]):
+            routs.append(sc.real_scan(proj, "proj", "proj", exclusions=(), regex_exclusions=tuple(perm)))
+    if len(set(routs)) > 1:
+        problems.append({"what": "the scan depends on the order in which regex_exclusions were listed", "files": dict(tree), "patterns": rx, "outs": routs})
     return problems
 
 
